@@ -143,6 +143,8 @@ func Spec(prop, tier string) *core.CheckSpec {
 				{Engine: "crash", Mode: "src", Runs: n(20000, 3000000), Millis: ms(25000, 500000)},
 				{Engine: "crash", Mode: "lib", Runs: n(30000, 3000000), Millis: ms(25000, 500000)},
 				{Engine: "crash", Mode: "ramp", Runs: n(600, 60000), Millis: ms(30000, 600000), Workers: 6, HangS: 180, Chunk: 100},
+				{Engine: "crash", Mode: "nolimit", Runs: n(3000, 300000), Millis: ms(6000, 100000), HangS: 60, Note: "library calls with sizes no allocator can serve (2^48+1 ... 2^63-1, negative) in a context without any limit, directly, inside a coroutine under pcall, as a coroutine body: an error comes back, not a panic of the Go allocator"},
+				{Engine: "crash", Mode: "pkg", Runs: n(4000, 400000), Millis: ms(6000, 100000), Note: "package.loaded / preload / searchers / path / config overwritten with values of every kind, then require, searchpath, the searchers, dofile and loadfile: a value or an error, never a panic"},
 				{Engine: "crash", Mode: "bin", Runs: n(15000, 1500000), Millis: ms(12000, 300000), Note: "string.dump of a generated program with corrupted bytes (and 8-byte length fields set to huge values) given to load() under limits: loading ends in a function, an error or a kill - no panic, no crash, no allocation sized by a made-up length (running corrupted byte code is outside the property)"},
 				{Engine: "model", Mode: "close-crash", Runs: n(12000, 1500000), Millis: ms(12000, 300000), Note: "SimLua programs (coroutines, to-be-closed values, handlers that yield or raise, coroutine.close at any point) under the controlled scheduler; only escaping panics, process crashes, dead-locks and hangs count here"},
 				{Engine: "model", Mode: "coro-crash", Runs: n(12000, 1500000), Millis: ms(12000, 300000), Note: "as above, coroutine-heavy shapes"},
